@@ -763,9 +763,20 @@ class VizierServicer(vizier_service_pb2_grpc.VizierServiceServicer):
       temp_pythia_service = self._select_pythia_service(
           study_config.pythia_endpoint
       )
-      early_stopping_decisions_proto = temp_pythia_service.EarlyStop(
-          early_stop_request_proto
-      )
+      try:
+        early_stopping_decisions_proto = temp_pythia_service.EarlyStop(
+            early_stop_request_proto
+        )
+      except Exception as e:  # pylint: disable=broad-except
+        # Do not leave the operation ACTIVE, or it would be returned as still
+        # being computed forever.
+        output_operation.status = (
+            vizier_oss_pb2.EarlyStoppingOperation.Status.FAILED
+        )
+        output_operation.failure_message = str(e)
+        output_operation.completion_time.CopyFrom(_get_current_time())
+        self.datastore.update_early_stopping_operation(output_operation)
+        raise
       early_stopping_decisions = svz.EarlyStopConverter.from_decisions_proto(
           early_stopping_decisions_proto
       )
